@@ -629,7 +629,7 @@ func (ck *checker) replay(p *pool, raw json.RawMessage) {
 		b.stored[c.Base.Addrs[i]] = c.Base.Datas[i]
 	}
 	b.lay = layoutFor(b)
-	j := &job{b: b, mut: c.Mut, extra: c.Extra, region: "replay", shape: c.Shape, subsets: c.Subsets}
+	j := &job{b: b, mut: c.Mut, extra: c.Extra, region: "replay", shape: c.Shape, subsets: c.Subsets, subsetOnly: c.SubsetOnly}
 	if j.shape == "" {
 		j.shape = "multi"
 		if len(c.Mut.Subs) == 1 && c.Mut.Trunc < 0 {
